@@ -77,6 +77,23 @@ class SymCtx(BaseCtx):
             m = self.eng.model()
         else:
             m = self.eng.model(z3.Not(c))
+            en = self.eng
+            en.n_prop_solver += 1
+            if en.cross_every and en.n_prop_solver % en.cross_every == 0:
+                t0 = time.time()
+                try:
+                    v = core.cvc5_verdict(en.solver, z3.Not(c))
+                except Exception as e:      # noqa
+                    v = 'error'
+                en.cross['cvc5_s'] += time.time() - t0
+                en.cross['checked'] += 1
+                mine = 'unsat' if m is None else 'sat'
+                if v == mine:
+                    en.cross['agree'] += 1
+                elif v in ('error', 'unknown'):
+                    en.cross['errors'] += 1
+                else:
+                    en.cross['disagree'].append('%s: z3 %s, cvc5 %s' % (label, mine, v))
         if m is None:
             if c is False:
                 raise Abort('infeasible path reached a check')
@@ -248,11 +265,12 @@ class Profile:
 
 
 def explore(fn, structure, max_paths=100000, max_seconds=600.0, sample_every=97, seed=0, exact_width=False,
-            hash_collide=False):
+            hash_collide=False, cross_every=0):
     """Explore all paths of fn(ctx, structure).  Returns a JSON-able summary."""
     en = Engine()
     en.exact_width = exact_width
     en.hash_collide = hash_collide
+    en.cross_every = cross_every
     set_engine(en)
     t0 = time.time()
     labels = {}          # label -> {'ok': n, 'viol': n, 'reached': n}
@@ -364,7 +382,7 @@ def explore(fn, structure, max_paths=100000, max_seconds=600.0, sample_every=97,
         'feas_queries': en.n_feas, 'prop_queries': en.n_prop, 'solver_s': round(en.solver_s, 3),
         'wall_s': round(time.time() - t0, 3),
         'samples': samples, 'replay_samples': replay_samples, 'functions': sorted(functions),
-        'fallback_samples': fallback, 'unsupported_paths': n_unsupported,
+        'fallback_samples': fallback, 'unsupported_paths': n_unsupported, 'cross': en.cross,
     }
 
 
